@@ -5,7 +5,9 @@ A scenario is a JSON-able dict:
   progs   : {fn: [[instr...], ...]}
   clients : [[call, ...], ...]   call = ['submit', handle, fn] | ['result', h] | ['status', h] | ['cancel', h] | ['close']
                                         | ['settle']  (not a request: the client waits until nothing else in the system can move)
-  sched   : ['random', seed] | ['pct', seed, depth] | ['delay', seed, rate, maxlen] | ['replay', picks, choices]
+                                        | ['when', kind]  (waits until a message of that kind is on its way to the server)
+  sched   : ['random', seed] | ['pct', seed, depth] | ['delay', seed, rate, maxlen, [preferred sleepers]]
+            | ['race', seed, early, late] | ['replay', picks, choices]
   lines   : bool    line-level interleaving inside the worker's critical functions
   crash   : null | [node, k]   kill `node` k scheduler steps after the first client submit
   crash2  : null | [node, k]   second crash, k steps after the first
@@ -13,6 +15,7 @@ A scenario is a JSON-able dict:
 """
 from __future__ import annotations
 
+import collections
 import re
 import uuid
 
@@ -29,11 +32,12 @@ class DelaySched:
     win dozens of coin flips in a row).  Threads parked at a source-line scheduling point are preferred as sleepers:
     those are the windows line-level mode exists for."""
 
-    def __init__(self, seed, rate=0.04, maxlen=120):
+    def __init__(self, seed, rate=0.04, maxlen=120, prefer=()):
         import random as _random
         self.rng = _random.Random(seed)
         self.rate = rate
         self.maxlen = maxlen
+        self.prefer = tuple(prefer)      # substrings of thread names that are put to sleep more readily (a busy server, ...)
         self.asleep = {}          # thread name -> step at which it wakes
 
     def pick_thread(self, en, k):
@@ -41,7 +45,7 @@ class DelaySched:
         for n in [n for n, t in self.asleep.items() if t <= now]:
             del self.asleep[n]
         if len(en) > 1 and self.rng.random() < self.rate:
-            w = [3 if (t.why and t.why[0] == 'line') else 1 for t in en]
+            w = [(3 if (t.why and t.why[0] == 'line') else 1) * (6 if any(p in t.name for p in self.prefer) else 1) for t in en]
             t = self.rng.choices(en, weights=w)[0]
             self.asleep[t.name] = now + self.rng.randint(8, self.maxlen)
         cand = [i for i, t in enumerate(en) if t.name not in self.asleep]
@@ -54,6 +58,66 @@ class DelaySched:
         return self.rng.randrange(n)
 
 
+def _describe(conn, name, obj):
+    """The messages a race scheduler can steer."""
+    try:
+        if name == 'RESULT' and obj[1].return_address.worker_id == -1:
+            return 'root-result'
+        if name == 'ERROR' and isinstance(obj[1], tuple):
+            return 'task-error'
+        if name == 'CANCEL' and str(conn.owner).startswith('client'):
+            return 'client-cancel'
+    except Exception:
+        pass
+    return ''
+
+
+class RaceSched:
+    """Random scheduling that steers ONE message race: wherever a message of kind `late` is on its way to a node, that
+    node's main thread is held back (as long as anything else can run) until a message of kind `early` is on its way to the
+    same node too; a select() that can choose then reads the connection carrying `early` first.  Every such order is
+    realisable in the real system by timing (a busy server reads its sockets late and in any order); uniform random
+    scheduling reaches it rarely because the reader would have to lose dozens of coin flips in a row.
+    Kinds: 'root-result' (RESULT of a compilation's root task), 'task-error' (ERROR of a task), 'client-cancel'."""
+
+    def __init__(self, seed, early, late):
+        import random as _random
+        self.rng = _random.Random(seed)
+        self.early, self.late = early, late
+        self.inflight = {}        # id(channel) -> [reader node, deque of kinds]; shared with (and kept by) the Run
+        self.steered = 0
+
+    def pick_thread(self, en, k):
+        held = set()
+        for reader, dq in self.inflight.values():
+            if self.late in dq and not any(self.early in d2 for r2, d2 in self.inflight.values() if r2 == reader):
+                held.add(reader + '.main')
+        cand = [i for i, t in enumerate(en) if t.name not in held] or list(range(len(en)))
+        return cand[self.rng.randrange(len(cand))]
+
+    def pick(self, n, kind, k):
+        if kind == 'select':
+            try:
+                me = k.me()
+                srv = sim.CUR.servers.get(me.node)
+                ready = sorted(srv.sel._ready(), key=lambda key: key.fileobj.name)
+                if len(ready) == n:
+                    def kinds(key):
+                        ent = self.inflight.get(id(getattr(key.fileobj, 'rx', None)))
+                        return list(ent[1]) if ent else []
+                    good = [i for i, key in enumerate(ready) if self.early in kinds(key)
+                            and (self.late not in kinds(key) or kinds(key).index(self.early) < kinds(key).index(self.late))]
+                    if good and any(self.late in kinds(key) for key in ready):
+                        self.steered += 1
+                        return good[0]
+                    calm = [i for i, key in enumerate(ready) if self.late not in kinds(key)[:1]]
+                    if calm and len(calm) < n and any(self.early in d for _, d in self.inflight.values()):
+                        return calm[self.rng.randrange(len(calm))]
+            except Exception:
+                pass
+        return self.rng.randrange(n)
+
+
 def make_sched(spec):
     kind = spec[0]
     if kind == 'random':
@@ -61,7 +125,10 @@ def make_sched(spec):
     if kind == 'pct':
         return sim.RecordingSched(sim.PCTSched(spec[1], spec[2] if len(spec) > 2 else 3))
     if kind == 'delay':
-        return sim.RecordingSched(DelaySched(spec[1], spec[2] if len(spec) > 2 else 0.04, spec[3] if len(spec) > 3 else 120))
+        return sim.RecordingSched(DelaySched(spec[1], spec[2] if len(spec) > 2 else 0.04, spec[3] if len(spec) > 3 else 120,
+                                             spec[4] if len(spec) > 4 else ()))
+    if kind == 'race':
+        return sim.RecordingSched(RaceSched(spec[1], spec[2], spec[3]))
     if kind == 'replay':
         return sim.RecordingSched(sim.ReplaySched(spec[1], spec[2]))
     raise ValueError(kind)
@@ -115,6 +182,33 @@ def _task_id_of(task):
         return 0
 
 
+def _raise_precedes_cancellation(k):
+    """Statistics only (the verdict is L1's): was task k, when its body raised, not yet cancelled work by the events logged
+    so far - no explicit cancel of, and no returned owner leaving unconsumed, a future that k or an ancestor hangs on?"""
+    anc = set()
+    a = k
+    while a:
+        anc.add(a)
+        a = rtprog.PARENT.get(a, 0)
+    owner, kids, consumed, dead = {}, {}, set(), set()
+    for e in rtprog.LOG:
+        n = e['e']
+        if n == 'TaskRaise' and e['t'] == k:
+            break
+        if n == 'Submit':
+            owner[e['f']] = e['t']
+            kids[e['f']] = set(e['kids'])
+        elif n == 'AwaitReturn':
+            consumed.add(e['f'])
+        elif n == 'Cancel':
+            dead.add(e['f'])
+        elif n == 'TaskEnd':
+            dead.update(f for f, o in owner.items() if o == e['t'] and f not in consumed)
+        elif n == 'ClientCall' and e['call'] in ('cancel', 'close'):
+            return False          # (coarse: any client cancel / close before the raise disqualifies)
+    return not any(kids[f] & anc for f in dead)
+
+
 class Run:
     def __init__(self, sc):
         self.sc = sc
@@ -146,11 +240,30 @@ class Run:
                 if f is not None:
                     self.k.trace_lines(f)
         self.net.send_hooks.append(self._on_send)
+        self.inflight = {}         # id(channel) -> [reader node, deque of message kinds (see _describe) still in the channel]
+        self.net.send_hooks.append(self._track_send)
+        self.net.recv_hooks.append(self._track_recv)
+        inner = getattr(self.sched, 'inner', None)
+        if isinstance(inner, RaceSched):
+            inner.inflight = self.inflight
         self.sd_logged = set()
         self.net.exit_hooks.append(self._on_exit)
         self._wrap_servers()
 
     # ---- observers
+    def _track_send(self, conn, tag, obj):
+        ent = self.inflight.setdefault(id(conn.tx), [str(conn.peer), collections.deque()])
+        ent[0] = str(conn.peer)
+        ent[1].append(_describe(conn, getattr(tag, 'name', ''), obj))
+
+    def _track_recv(self, conn, tag, obj):
+        ent = self.inflight.get(id(conn.rx))
+        if ent and ent[1]:
+            ent[1].popleft()
+
+    def _on_its_way(self, kind, reader='server'):
+        return any(r == reader and kind in dq for r, dq in self.inflight.values())
+
     def _on_send(self, conn, tag, obj):
         name = getattr(tag, 'name', '')
         if name in ('SUBMIT', 'SUBMIT_BATCH') and isinstance(conn.peer, str) and conn.peer.startswith('w') \
@@ -236,6 +349,10 @@ class Run:
                 mb = payload[0]
                 if mb in srv.mailbox_to_task_dict and mb not in srv.mailboxes:
                     self.stats['error_after_delivered_result'] = self.stats.get('error_after_delivered_result', 0) + 1
+                    booms = [int(x) for x in re.findall(r'boom-(\d+)', str(payload[1]))]
+                    if booms and _raise_precedes_cancellation(booms[-1]):
+                        # ... and L1 will demand this error (the raise precedes, in the trace, everything that cancels the task)
+                        self.stats['due_error_after_delivered_result'] = self.stats.get('due_error_after_delivered_result', 0) + 1
                 elif mb in srv.mailbox_to_task_dict:
                     self.stats['error_before_result'] = self.stats.get('error_before_result', 0) + 1
             elif dname == 'BELOW' and name == 'RESULT' and hasattr(srv, 'mailboxes') and payload.return_address.worker_id == -1:
@@ -355,6 +472,11 @@ class Run:
                 # was on its way has arrived, every task that could run has run)
                 self.k.wait_timeout(('settle', ci), lambda: False)
                 rtprog.ev('Settle', c=c)
+            elif op == 'when':
+                # not a request either: the client acts at the moment a message of kind item[1] is on its way to the server
+                # (e.g. ['when', 'root-result'], ['cancel', H]: cancel just as the compilation finishes); gives up when nothing
+                # else can move
+                self.k.wait_timeout(('when', ci), lambda kind=item[1]: self._on_its_way(kind))
         if not is_probe:
             self.at_gate.add(ci)
             self.k.yield_(('gate', ci), lambda: self.gate_open)
